@@ -846,6 +846,52 @@ fn large_counts(l: &mut Local) {
 
 pub const TYPES: [&str; 10] = ["Arithmetic<f64>", "Arithmetic<f32>", "Geometric<f64>", "Geometric<f32>", "Harmonic<f64>", "Harmonic<f32>", "Paired<f64>", "Unpaired<f64>", "proportion::Stats", "quantile::Stats"];
 
+/// Chunked `extend_if` / one-shot `ci_if` with a predicate that carries state (a sampling rule, a rate
+/// limiter, a random draw): every observation is counted exactly once, so the population after the chunks
+/// is the number of observations, and one batch and many chunks agree on it.
+fn stateful_predicate(seed: u64, i: u64, l: &mut Local) {
+    let mut r = Rng::from(&[seed, 0x57a7e, i]);
+    let n = r.range(1, 400) as usize;
+    let data: Vec<u32> = (0..n).map(|_| r.below(1000) as u32).collect();
+    let state = std::cell::Cell::new(r.next_u64() | 1);
+    let pred = |x: &u32| {
+        // xorshift: the answer depends on how often the predicate was asked, not only on x
+        let mut s = state.get();
+        s ^= s << 13;
+        s ^= s >> 7;
+        s ^= s << 17;
+        state.set(s);
+        (s >> 33) % 3 == 0 || *x == 999
+    };
+    let mut whole = proportion::Stats::default();
+    whole.extend_if(&data, pred);
+    let mut chunked = proportion::Stats::default();
+    let mut at = 0;
+    while at < n {
+        let k = (1 + r.below(50) as usize).min(n - at);
+        let part = data[at..at + k].to_vec();
+        let mut st = proportion::Stats::default();
+        st.extend_if(&part, pred);
+        if r.bool() {
+            chunked += st;
+        } else {
+            chunked = st + chunked;
+        }
+        at += k;
+    }
+    l.eval();
+    l.count("stateful predicate judged");
+    l.nontrivial(mix(&[seed, i, 0x57a7e]));
+    if whole.population() != n || chunked.population() != n || whole.successes() > n || chunked.successes() > n {
+        l.violation(
+            "proportion::Stats::extend_if|stateful-predicate|count-differs-from-observations".to_string(),
+            "extend_if with a predicate that carries state does not count every observation exactly once".to_string(),
+            json!({"what": "stateful", "i": i}),
+            json!({"observations": n, "population(one batch)": whole.population(), "population(chunks merged)": chunked.population(), "successes": [whole.successes(), chunked.successes()]}),
+        );
+    }
+}
+
 pub fn run(run: &Arc<Run>) {
     let seed = run.cfg.seed;
     run.set_rule(
@@ -874,6 +920,7 @@ pub fn run(run: &Arc<Run>) {
             "rayon" => run_rayon(seed, case["i"].as_u64().unwrap(), &mut l),
             "order" => crate::props::purity::order_independence("interleaved queries", seed, case["i"].as_u64().unwrap(), &mut l),
             "large-count" => large_counts(&mut l),
+            "stateful" => stateful_predicate(seed, case["i"].as_u64().unwrap(), &mut l),
             "chain" => {
                 let (ty, i, parts) = (case["ty"].as_str().unwrap_or(""), case["i"].as_u64().unwrap(), case["parts"].as_u64().unwrap() as usize);
                 for_each_type!(ty, long_chain, seed, i, parts, &mut l);
@@ -890,6 +937,7 @@ pub fn run(run: &Arc<Run>) {
         large_counts(&mut l);
         run.absorb(l);
     }
+    run.par(run.cfg.by(300u64, 6000), |i, l| stateful_predicate(seed, i, l));
     // long chains (a streaming reduce over thousands of small partial states)
     let nchain = run.cfg.by(60u64, 1200);
     run.par(nchain, |i, l| {
@@ -956,6 +1004,7 @@ pub fn run(run: &Arc<Run>) {
         "op:new".into(),
         "op:append".into(),
         "op:extend".into(),
+        "stateful predicate judged".into(),
         "op:from_iter".into(),
         "op:clone".into(),
         "op:add".into(),
